@@ -166,10 +166,12 @@ def check_property(pid, tier, seed):
             for n, meta_n in nb["harnesses"].items():
                 ok, outp = res.get(n, (None, "not run"))
                 status = "discharged" if ok else ("refuted" if ok is False else "error")
+                # every failing case the harness prints is one failed check (known findings are keyed on them)
+                ce = [l.strip() for l in outp.split("\n") if l.startswith("COUNTEREXAMPLE")]
                 obligations.append(dict(name=f"{pid}/native_bounded/{meta_n.get('anchor', n)}/{n}", engine="native_bounded",
-                                        status=status, detail=outp[-1500:] if status != "discharged" else "", time_s=None,
+                                        status=status, detail=outp[:3000] if status != "discharged" else "", time_s=None,
                                         bound=meta_n["bound"], kind="harness", harness=n, files=nb.get("files", []),
-                                        failed_checks=[(outp[-300:], "")], inject=nb.get("inject", ()), native=True))
+                                        failed_checks=[(l, "") for l in ce] or [(outp[-300:], "")], inject=nb.get("inject", ()), native=True))
                 by_backend["native_bounded"] = by_backend.get("native_bounded", 0) + 1
                 functions_under_contract.append(meta_n.get("anchor", n))
             solver_time += 0
